@@ -547,6 +547,10 @@ func uploadDriver(a *Args) {
 // binary with ReverseProxy in front of a flushing backend.
 func streamDriver(a *Args) {
 	res := a.Res
+	if a.Mode == "stress-child" {
+		streamStressChild()
+		return
+	}
 	rng := hx.Rand("stream")
 	chunkings := [][]int{{1}, {1, 1, 1}, {1, 4096, 1}, {32768, 32768, 32768, 32768, 32769}, {5, 70000, 3}}
 	n := 12
@@ -634,6 +638,26 @@ func streamDriver(a *Args) {
 		hx.Emit("CloseDone", "ok", ok, "blocked", blocked)
 		fp.Close()
 		res.Case(fmt.Sprintf("inproc:%v", sizeClasses(c)), map[string]interface{}{"mode": "in-process forwarder", "chunks": c})
+	}
+	// (a') many lock-step rounds on 12 streams at once, in a child process without a trace: a wake-up that
+	// is lost once in thousands of hand-overs between the handler and the serialiser shows as a stall
+	{
+		hx.Reset("stream-stress", "stream-stress")
+		cmd := exec.Command(hx.Bin("vdrive"), "-mode", "stress-child", "-out", os.DevNull, "stream")
+		cmd.Env = append(os.Environ(), "VERIF_TRACE=")
+		out, err := cmd.CombinedOutput()
+		var sum struct{ Streams, Chunks, Stalls, Failed int }
+		parsed := false
+		for _, ln := range strings.Split(string(out), "\n") {
+			if strings.HasPrefix(ln, "STRESS ") {
+				parsed = json.Unmarshal([]byte(strings.TrimPrefix(ln, "STRESS ")), &sum) == nil
+			}
+		}
+		if err != nil || !parsed {
+			res.Note("stream stress child failed (%v): %s", err, headOf(out, 1500))
+		}
+		hx.Emit("StreamStress", "ok", err == nil && parsed, "streams", sum.Streams, "chunks", sum.Chunks, "stalls", sum.Stalls, "failed", sum.Failed)
+		res.Case("stress:12-streams-lockstep", map[string]interface{}{"streams": sum.Streams, "chunks": sum.Chunks, "stalls": sum.Stalls})
 	}
 	// (b) black box: real agent binary, ReverseProxy (100 ms flush interval), flushing backend
 	streamAgent(a, chunkings)
@@ -818,5 +842,65 @@ func uploadStressChild() {
 	wg.Wait()
 	ex, _ := example.Load().(string)
 	b, _ := json.Marshal(map[string]interface{}{"Runs": runs, "Acked": acked, "Corrupt": corrupt, "Blocked": blocked, "Refused": refused, "Example": ex})
+	fmt.Println("STRESS " + string(b))
+}
+
+// streamStressChild: 12 response forwarders at a time, each streaming 1500 small chunks in lock-step
+// (chunk k+1 is written only after the upload endpoint has received chunk k completely).
+func streamStressChild() {
+	const streams, rounds = 12, 1500
+	var chunks, stalls, failed int64
+	var wg sync.WaitGroup
+	for g := 0; g < streams; g++ {
+		wg.Add(1)
+		go func(g int) {
+			defer wg.Done()
+			pieces := make([]int, rounds)
+			for k := range pieces {
+				pieces[k] = 1 + (k*7+g)%48
+			}
+			h := handlerScript{fmt.Sprintf("sstream%d", g), pieces, false}
+			obsCh := make(chan *streamObserver, 1)
+			fp := fakes.NewFakeProxy()
+			defer fp.Close()
+			fp.Post = func(w http.ResponseWriter, r *http.Request, id string) {
+				o := newStreamObserver(h, false)
+				obsCh <- o
+				io.Copy(o.pw, r.Body)
+				o.pw.Close()
+				<-o.done
+				w.WriteHeader(200)
+			}
+			var obs *streamObserver
+			stalled := false
+			gate := func(k int) {
+				if k == 0 || stalled {
+					return
+				}
+				if obs == nil {
+					select {
+					case obs = <-obsCh:
+					case <-time.After(5 * time.Second):
+						stalled = true
+						atomic.AddInt64(&stalls, 1)
+						return
+					}
+				}
+				select {
+				case <-obs.pieceCh:
+					atomic.AddInt64(&chunks, 1)
+				case <-time.After(2 * time.Second):
+					stalled = true
+					atomic.AddInt64(&stalls, 1)
+				}
+			}
+			ok, blocked, _ := runForwarder(fp.URL(), h, fmt.Sprintf("sstream-%d", g), gate)
+			if !ok || blocked {
+				atomic.AddInt64(&failed, 1)
+			}
+		}(g)
+	}
+	wg.Wait()
+	b, _ := json.Marshal(map[string]int64{"Streams": streams, "Chunks": chunks, "Stalls": stalls, "Failed": failed})
 	fmt.Println("STRESS " + string(b))
 }
